@@ -1,0 +1,94 @@
+//go:build verif
+
+package stack
+
+// Contracts for the stacks (property C12: LIFO), read by the verification machinery in /verif.
+// Comment-only file. The abstract view of a simpleStack is the sequence (*s)[0..len(*s)).
+
+/*@
+func newSimpleStack
+  ensures r0 != nil && fresh(r0) && len(*r0) == 0
+
+func simpleStack.Push
+  requires s != nil
+  modifies *s, allelems(T)
+  ensures len(*s) == old(len(*s)) + 1 && (*s)[len(*s) - 1] == element
+  ensures forall i Int :: 0 <= i && i < old(len(*s)) ==> (*s)[i] == old((*s)[i])
+
+func simpleStack.Pop
+  requires s != nil
+  modifies *s
+  ensures exists <==> old(len(*s)) > 0
+  ensures exists ==> value == old((*s)[len(*s) - 1]) && len(*s) == old(len(*s)) - 1
+  ensures !exists ==> len(*s) == old(len(*s))
+  ensures forall i Int :: 0 <= i && i < len(*s) ==> (*s)[i] == old((*s)[i])
+
+func simpleStack.Peek
+  requires s != nil
+  ensures exists <==> len(*s) > 0
+  ensures exists ==> value == (*s)[len(*s) - 1]
+
+func simpleStack.Clear
+  requires s != nil
+  modifies *s
+  ensures len(*s) == 0
+
+func simpleStack.Size
+  requires s != nil
+  ensures r0 == len(*s)
+
+func simpleStack.IsEmpty
+  requires s != nil
+  ensures r0 <==> len(*s) == 0
+
+-- thread-safe flavour: one critical section per call, forwarding to the inner stack
+type threadSafeStack
+  monitor mutex guards stack
+  invariant self.stack != nil
+
+func newThreadSafeStack
+  ensures r0 != nil && fresh(r0) && r0.stack != nil && unlocked(r0.mutex)
+func threadSafeStack.Push
+  requires s != nil && unlocked(s.mutex)
+  modifies s.stack, cells(simpleStack), allelems(T)
+  ensures unlocked(s.mutex)
+func threadSafeStack.Pop
+  requires s != nil && unlocked(s.mutex)
+  modifies s.stack, cells(simpleStack)
+  ensures unlocked(s.mutex)
+func threadSafeStack.Peek
+  requires s != nil && unlocked(s.mutex)
+  modifies s.stack
+  ensures unlocked(s.mutex)
+func threadSafeStack.Clear
+  requires s != nil && unlocked(s.mutex)
+  modifies s.stack, cells(simpleStack)
+  ensures unlocked(s.mutex)
+func threadSafeStack.Size
+  requires s != nil && unlocked(s.mutex)
+  modifies s.stack
+  ensures unlocked(s.mutex)
+func threadSafeStack.IsEmpty
+  requires s != nil && unlocked(s.mutex)
+  modifies s.stack
+  ensures unlocked(s.mutex)
+
+func threadSafeStack.Push#sequential
+  opt sequential
+  requires s != nil && unlocked(s.mutex)
+  modifies cells(simpleStack), allelems(T)
+  ensures len(*s.stack) == old(len(*s.stack)) + 1 && (*s.stack)[len(*s.stack) - 1] == element
+  ensures forall i Int :: 0 <= i && i < old(len(*s.stack)) ==> (*s.stack)[i] == old((*s.stack)[i])
+func threadSafeStack.Pop#sequential
+  opt sequential
+  requires s != nil && unlocked(s.mutex)
+  modifies cells(simpleStack)
+  ensures exists <==> old(len(*s.stack)) > 0
+  ensures exists ==> value == old((*s.stack)[len(*s.stack) - 1]) && len(*s.stack) == old(len(*s.stack)) - 1
+  ensures forall i Int :: 0 <= i && i < len(*s.stack) ==> (*s.stack)[i] == old((*s.stack)[i])
+func threadSafeStack.Peek#sequential
+  opt sequential
+  requires s != nil && unlocked(s.mutex)
+  ensures exists <==> len(*s.stack) > 0
+  ensures exists ==> value == (*s.stack)[len(*s.stack) - 1]
+@*/
